@@ -16,6 +16,9 @@ package main
 // l/d   like g/f, but the virtual state of a transaction is created lazily (GetFuture when the
 //       transaction is first scheduled / dispatched, after earlier ones may have committed),
 //       as the dispatcher of transition_pe.go does; g/f create all of them up front
+//       a trailing '!' on a tx: executor retry - the transaction takes GetSnapshot() as its
+//       first action, runs its program, Reset()s to that snapshot and runs the program again
+//       (the observations and writes of the second run count)
 // g     the harness chooses the interleaving: every transaction runs in its own
 //       goroutine on its own virtual state created by the real
 //       NewWorldVirtualState/GetFuture chain; at each point the enabled actions
@@ -61,8 +64,9 @@ type c09Step struct {
 }
 
 type c09Tx struct {
-	reqs []c09Req
-	prog []c09Step
+	reqs  []c09Req
+	prog  []c09Step
+	retry bool // takes GetSnapshot() at its start, runs, Reset()s to it and runs again (executor retry)
 }
 
 func c09ID(a int) []byte { return []byte(fmt.Sprintf("acct-%02d", a)) }
@@ -224,6 +228,16 @@ func c09Gen(g *Gen) {
 			}
 			txs[k+1] = fmt.Sprintf("w%d,r0:r%d,w%d,r0", a, a, a)
 		}
+		// executor retry: GetSnapshot at start, run, Reset, run again
+		kW := -1
+		for i := range txs {
+			if g.Intn(4) == 0 {
+				txs[i] += "!"
+				if strings.HasPrefix(txs[i], "W") {
+					kW = i
+				}
+			}
+		}
 		outside := false
 		if g.Intn(60) == 0 {
 			// outside the assumptions (see registry): a world READ lock, or a world write
@@ -237,6 +251,20 @@ func c09Gen(g *Gen) {
 			}
 		}
 		head := fmt.Sprintf("%d %d %s", nacc, n, strings.Join(txs, " "))
+		if kW > 0 && !outside && g.Intn(2) == 0 {
+			// the predecessors of a retrying world write locker in block order, so that its
+			// start snapshot can be requested before they have written
+			ss := make([]string, 0, n)
+			for i := 0; i < kW; i++ {
+				ss = append(ss, strconv.Itoa(i))
+			}
+			for _, v := range g.R.Perm(n - kW) {
+				ss = append(ss, strconv.Itoa(kW+v))
+			}
+			g.Emit("blk g %s p %s", head, strings.Join(ss, " "))
+			emitted++
+			continue
+		}
 		switch {
 		case outside:
 			if g.Intn(2) == 0 && n <= 8 {
@@ -315,11 +343,15 @@ func c09Parse(toks []string) (mode string, nacc int, txs []c09Tx, kind string, s
 		return v, v < nacc
 	}
 	for _, t := range toks[4 : 4+n] {
+		var tx c09Tx
+		if strings.HasSuffix(t, "!") {
+			tx.retry = true
+			t = t[:len(t)-1]
+		}
 		parts := strings.Split(t, ":")
 		if len(parts) != 2 {
 			return
 		}
-		var tx c09Tx
 		if parts[0] != "-" {
 			for _, l := range strings.Split(parts[0], ",") {
 				switch {
@@ -424,6 +456,9 @@ type c09Sys struct {
 	obs    [][]string
 	idx    map[state.WorldVirtualState]int
 	created int
+	snap      []state.WorldSnapshot // start snapshot of a retrying transaction
+	snapDone  []chan struct{}
+	retryNote []string
 }
 
 func c09Init(ws state.WorldState, nacc int) {
@@ -462,7 +497,34 @@ func c09Build(nacc int, txs []c09Tx) *c09Sys {
 	s.depIdx = make([]map[int]int, n)
 	s.acc = make([]int, n)
 	s.obs = make([][]string, n)
+	s.snap = make([]state.WorldSnapshot, n)
+	s.snapDone = make([]chan struct{}, n)
+	s.retryNote = make([]string, n)
 	return s
+}
+
+// takeSnapshot is the first action of the worker of a retrying transaction.
+func (s *c09Sys) takeSnapshot(i int) {
+	s.snap[i] = s.wvs[i].GetSnapshot()
+	close(s.snapDone[i])
+}
+
+// rerun is the executor's retry: back to the start snapshot, the whole program again.
+func (s *c09Sys) rerun(i int, pause func()) {
+	if err := s.wvs[i].Reset(s.snap[i]); err != nil {
+		s.retryNote[i] = "Reset failed: " + err.Error()
+		return
+	}
+	acc := 0
+	var obs []string
+	for _, st := range s.txs[i].prog {
+		pause()
+		c09DoStep(s.wvs[i].GetAccountState, i, st, &acc, &obs)
+	}
+	if strings.Join(obs, ",") != strings.Join(s.obs[i], ",") {
+		s.retryNote[i] = fmt.Sprintf("first run observed %v, run after Reset observed %v", s.obs[i], obs)
+	}
+	s.acc[i], s.obs[i] = acc, obs
 }
 
 // create makes the virtual state of transaction i (the previous ones exist) exactly like the
@@ -700,6 +762,41 @@ func (r *c09Runner) Step(toks []string, o *Oracle) string {
 	if !lazy {
 		s.ensure(n-1, o)
 	}
+	gated := mode == "g" || mode == "l"
+	// start snapshots of retrying transactions (the worker's first action). With account locks
+	// GetSnapshot never blocks: taken as soon as the virtual state exists, i.e. before the
+	// predecessors have written. With the world write lock it waits (in Realize, holding the
+	// mutexes of all uncommitted predecessors but the oldest) until every predecessor committed:
+	// it is started early only under a priority schedule that runs the predecessors in block
+	// order, otherwise when the transaction is first scheduled.
+	snapAccounts := func() {
+		for j := 0; j < s.created; j++ {
+			if txs[j].retry && !c09WorldWrite(txs[j]) && s.snapDone[j] == nil {
+				s.snapDone[j] = make(chan struct{})
+				s.takeSnapshot(j)
+				o.Count("retry-snapshot-account-locks")
+			}
+		}
+	}
+	if gated {
+		snapAccounts()
+	}
+	if mode == "g" && kind == "p" {
+		for k := 0; k < n; k++ {
+			if !txs[k].retry || !c09WorldWrite(txs[k]) {
+				continue
+			}
+			inOrder := true
+			for j := 0; j < k; j++ {
+				inOrder = inOrder && sched[j] == j
+			}
+			if inOrder && k > 0 {
+				s.snapDone[k] = make(chan struct{})
+				go s.takeSnapshot(k)
+				o.Count("retry-snapshot-world-early")
+			}
+		}
+	}
 
 	type cmd struct{ commit bool }
 	cmds := make([]chan cmd, n)
@@ -752,6 +849,9 @@ func (r *c09Runner) Step(toks []string, o *Oracle) string {
 			go func(i int) {
 				for c := range cmds[i] {
 					if c.commit {
+						if txs[i].retry {
+							s.rerun(i, func() {})
+						}
 						s.wvs[i].Commit()
 						done <- i
 						return
@@ -814,6 +914,19 @@ func (r *c09Runner) Step(toks []string, o *Oracle) string {
 			case <-created:
 			case <-time.After(10 * time.Second):
 				return "desync-create"
+			}
+			snapAccounts()
+			if txs[pick].retry {
+				if s.snapDone[pick] == nil {
+					s.snapDone[pick] = make(chan struct{})
+					go s.takeSnapshot(pick)
+					o.Count("retry-snapshot-world-at-first-step")
+				}
+				select {
+				case <-s.snapDone[pick]:
+				case <-time.After(10 * time.Second):
+					return "desync-snapshot"
+				}
 			}
 			anyPending := false
 			for _, pd := range pending {
@@ -905,6 +1018,10 @@ func (r *c09Runner) Step(toks []string, o *Oracle) string {
 			go func(i int) {
 				defer wg.Done()
 				x := uint32(seed*2654435761 + i*40503 + 1)
+				if txs[i].retry {
+					s.snapDone[i] = make(chan struct{})
+					s.takeSnapshot(i)
+				}
 				for _, st := range txs[i].prog {
 					x = x*1664525 + 1013904223
 					switch (x >> 16) % 4 {
@@ -918,6 +1035,14 @@ func (r *c09Runner) Step(toks []string, o *Oracle) string {
 				x = x*1664525 + 1013904223
 				if (x>>16)%3 == 0 {
 					time.Sleep(time.Duration((x>>20)%300) * time.Microsecond)
+				}
+				if txs[i].retry {
+					s.rerun(i, func() {
+						x = x*1664525 + 1013904223
+						if (x>>16)%4 == 0 {
+							runtime.Gosched()
+						}
+					})
 				}
 				s.wvs[i].Commit()
 			}(i)
@@ -1007,6 +1132,12 @@ func (r *c09Runner) Step(toks []string, o *Oracle) string {
 			o.Count("outside-assumptions-nonserial")
 		}
 		return fmt.Sprintf("ok d=%s o=%s f=%s", s.depTable(), c09Join(s.obs), fin)
+	}
+	for i := range txs {
+		if txs[i].retry {
+			o.Count("retry-tx")
+			o.Check(s.retryNote[i] == "", "retry-read-differs", "tx %d (GetSnapshot at start, Reset, run again): %s", i, s.retryNote[i])
+		}
 	}
 	for i := range txs {
 		same := strings.Join(robs[i], ",") == strings.Join(s.obs[i], ",")
